@@ -5,6 +5,7 @@ import concurrent.futures
 import json
 import os
 import subprocess
+import time
 
 from vlib import *
 
@@ -140,9 +141,10 @@ def run_scenario(wd, i, script, followers):
                 "--blocks", os.path.join(wd, "b%d.json" % i), "--out", b, "--scn", str(i)]
         env = None
         if f % 2 == 0:
-            # a replica on a machine configured differently: node-local options, and a local time zone far from UTC
+            # a replica on a machine configured differently: node-local options, a local time zone far from UTC,
+            # and a wall clock that is a year and a half ahead
             args.append("--noise")
-            env = dict(os.environ, TZ="Pacific/Kiritimati")
+            env = dict(os.environ, TZ="Pacific/Kiritimati", HV_CLOCK_SKEW_SEC="47000000")
         else:
             # a replica whose process has a past: the whole history is first replayed on a throw-away database
             args.append("--prerun")
@@ -181,6 +183,10 @@ def run_family(c, prop, mode, nscen, maxlen, followers, exhaustive=True):
             cfg["historicalEntries"] = 3   # the header history BLOCKHASH is served from is pruned after three blocks
         if i % 5 == 4:
             cfg["genesisTime"] = "2027-12-31T20:00:00Z"   # the hours before a leap year begins
+        if i % 2 == 0:
+            # a registered epoch that has not started: its start lies ahead of this machine's clock and behind the
+            # clock of the replica whose clock runs ahead
+            cfg["futureEpoch"] = time.strftime("%Y-%m-%dT%H:%M:%SZ", time.gmtime(time.time() + 300 * 86400))
         if mode == "C20":
             steps = steps + c20_epilogue(steps, i)
             cfg["noPrecompiles"] = i % 3 == 2 and i % 6 != 5
